@@ -254,7 +254,7 @@ def h_voxel_grid(cx, sz, use_cubes=False):
         cx.ge('last_max_covers[%d]' % i, grid[-1][1][i], hi[i])
 
 
-def h_voxelize(cx, sz, num_procs=1):
+def h_voxelize(cx, sz, num_procs=1, tol=None):
     """voxelize a bilinear patch with one symbolic corner height: filled[i] == 1 <=> a sampled point lies in cell i"""
     VX = geo.M('voxelize')
     B = geo.M('BSpline')
@@ -265,12 +265,17 @@ def h_voxelize(cx, sz, num_procs=1):
     s.knotvector_u = [0, 0, 1, 1]
     s.knotvector_v = [0, 0, 1, 1]
     s.sample_size = 3
-    grid, filled = VX.voxelize(s, grid_size=sz) if num_procs == 1 else VX.voxelize(s, grid_size=sz, num_procs=num_procs)
+    kw = {}
+    if num_procs != 1:
+        kw['num_procs'] = num_procs
+    if tol is not None:
+        kw['tol'] = cx.const(tol)        # padding of every voxel (default 10e-8)
+    grid, filled = VX.voxelize(s, grid_size=sz, **kw)
     cx.check('sizes', len(grid) == len(filled) == sz[0] * sz[1] * sz[2], '%d cells, %d flags' % (len(grid), len(filled)))
     if len(grid) != len(filled):
         return
     pts = s.evalpts
-    tol = F(10e-8)
+    tol = F(10e-8) if tol is None else F(tol)
     for k, cell in enumerate(grid):
         inside = any(all(cx.holds(cell[0][i] - tol <= p[i]) and cx.holds(p[i] < cell[1][i] + tol) for i in range(3)) for p in pts)
         cx.check('filled[%d]' % k, filled[k] == (1 if inside else 0), 'filled %s oracle %s' % (filled[k], inside))
@@ -406,6 +411,8 @@ def instances(tier):
     # worker pools (model: order-preserving map over copies, see core.SerialPool; the float replay uses real processes)
     for np_ in ((2, 3) if quick else (2, 3, 4, 8)):
         out.append(inst('voxelize bilinear patch (2,2,2) num_procs=%d' % np_, h_voxelize, timeout=1800, sz=(2, 2, 2), num_procs=np_))
+    for np_ in (1, 2):
+        out.append(inst('voxelize bilinear patch (2,2,2) padding 1/4 num_procs=%d' % np_, h_voxelize, timeout=1800, sz=(2, 2, 2), num_procs=np_, tol=F(1, 4)))
     if not quick:
         for np_ in (2, 8):
             out.append(inst('voxelize bilinear patch (3,2,2) num_procs=%d' % np_, h_voxelize, timeout=3600, sz=(3, 2, 2), num_procs=np_))
